@@ -133,8 +133,9 @@ pub fn oracle_files(ctx: &mut Ctx) {
         st.count(&format!("dest{}", dest));
         st.count("cases");
         st.distinct_case(&[case.input.as_slice(), &[dest as u8]].concat());
-        let r = catch(|| oxipng::optimize(&InFile::Path(inp.clone()), &outfile, &o));
         let replay = format!("{{\"dest\": {}, \"case\": {}}}", dest, case.replay_json());
+        note_current(&replay);
+        let r = catch(|| oxipng::optimize(&InFile::Path(inp.clone()), &outfile, &o));
         match r {
             None => {
                 st.fail("panic", "optimize() panicked".into(), replay);
